@@ -355,8 +355,8 @@ def check_prop(prop, tier, seed):
         if w["driver"] == "crash":
             for k in ("journal_ops", "probes", "torn_probes", "gen2_probes"):
                 extra["crash_" + k] = extra.get("crash_" + k, 0) + sum(x["crash"][k] for x in r)
-    vruns, rejects, tstates = validate_traces(files, "RainCore_Trace.tla", "RainCore_Trace.cfg",
-                                              nproc, prop)
+    tmod, tcfg = conf.get("trace", ("RainCore_Trace.tla", "RainCore_Trace.cfg"))
+    vruns, rejects, tstates = validate_traces(files, tmod, tcfg, nproc, prop)
     return finish(prop, tier, seed, t0, design, switches, recs, vruns, rejects, tstates, None,
                   extra_cov=extra)
 
